@@ -232,6 +232,34 @@ inline auto memunit_distance(memory_based_step_iterator<Iterator> const& p1, mem
     return memunit_distance(p1.base(),p2.base());
 }
 
+// Ordering of memory-based step iterators: decided by the memory distance of the positions and the sign
+// of the step. (Comparing the bases with their own relational operators is wrong when the base is itself
+// a step iterator with a negative step, e.g. the y-iterator of a horizontally flipped view.)
+template <typename Iterator> inline
+bool operator<(memory_based_step_iterator<Iterator> const& p1, memory_based_step_iterator<Iterator> const& p2)
+{
+    std::ptrdiff_t const d = memunit_distance(p1.base(), p2.base());
+    return p1.step() > 0 ? d > 0 : d < 0;
+}
+
+template <typename Iterator> inline
+bool operator>(memory_based_step_iterator<Iterator> const& p1, memory_based_step_iterator<Iterator> const& p2)
+{
+    return p2 < p1;
+}
+
+template <typename Iterator> inline
+bool operator<=(memory_based_step_iterator<Iterator> const& p1, memory_based_step_iterator<Iterator> const& p2)
+{
+    return !(p2 < p1);
+}
+
+template <typename Iterator> inline
+bool operator>=(memory_based_step_iterator<Iterator> const& p1, memory_based_step_iterator<Iterator> const& p2)
+{
+    return !(p1 < p2);
+}
+
 template <typename Iterator>
 inline void memunit_advance(memory_based_step_iterator<Iterator>& p,
                          std::ptrdiff_t diff) {
